@@ -64,7 +64,7 @@ def main(argv=None):
         # load char tables from the real std
         from . import chartab
         try:
-            chartab.load(ctx.native('dev').call({'op': 'chartab', 'cps': chartab.R}))
+            chartab.load(ctx.native('dev').call({'op': 'chartab', 'cps': chartab.table_chars(ws.src)}))
         except Exception as e:
             print(f'INCONCLUSIVE property={pid} native helper unavailable: {e}'); return 2
         t_setup = time.time() - t0
